@@ -171,6 +171,17 @@ func genCall(r *Run, agent int, users []string, model map[string]*AUser, vias []
 		if m := model[u]; m != nil && r.Choose("update-to-same-password", 4) == 0 {
 			c.PW = m.PW // a retried or redundant change: the password the record already holds
 		}
+		if m := model[u]; m != nil && len(vias) > 1 && r.Choose("update-over-web-api", 3) == 0 {
+			// the web interface: a change authorised by the old password (right or wrong), and what a
+			// replica sends for a remote hash upgrade - the old password and no new one
+			c.Via, c.OldPW = "api", m.PW
+			switch r.Choose("web-update-kind", 4) {
+			case 0:
+				c.Kind, c.PW = "reauth", m.PW
+			case 1:
+				c.OldPW = "not-the-old-password"
+			}
+		}
 	case 7:
 		c.Kind = "remove"
 		if u == "root" {
